@@ -108,7 +108,15 @@ def cases(draw):
     path = []
     schema = s
     if where in ("property", "nested"):
-        schema = {"type": "object", "title": "Inner", "properties": {name: s}}
+        props = {name: s}
+        core_types = s.get("type") if isinstance(s, dict) else None
+        if core_types in ("object", ["object"]) and draw(st.booleans()):
+            # an equal object schema under the same title but WITHOUT the default, parsed first:
+            # class de-duplication must not let the default leak onto it
+            twin = {k: copy.deepcopy(v) for k, v in s.items() if k != "default"}
+            twin["type"] = "object"
+            props = {"0twin": twin, name: s}
+        schema = {"type": "object", "title": "Inner", "properties": props}
         if draw(st.booleans()):
             schema["description"] = draw(descriptions)
         path = [name]
